@@ -31,6 +31,7 @@ type RootSpec struct {
 	Outside   string   `json:"outside"`
 	NoReplay  bool     `json:"no_replay"` // findings of this root cannot be replayed natively (stated)
 	MaxPaths  int      `json:"max_paths"`
+	SkipGo    []string `json:"skip_go"` // goroutines (by function-name substring) that are not started in this root
 }
 
 type PropSpec struct {
@@ -333,6 +334,7 @@ func newMachine(l *Loaded, spec *RootSpec, solverBin string) *Machine {
 	for _, s := range spec.Summarize {
 		m.summarize[s] = true
 	}
+	m.skipGo = spec.SkipGo
 	m.ctx.solver = NewSolver(solverBin, "-in", "-t:20000")
 	return m
 }
@@ -346,7 +348,11 @@ func runRoot(l *Loaded, spec *RootSpec, args []int, nSamples int) (res *RootResu
 			if os.Getenv("VERIF_PANIC") != "" {
 				panic(r)
 			}
-			res.Err = fmt.Sprintf("engine panic: %v", r)
+			where := ""
+			if m.curFn != nil {
+				where = fmt.Sprintf(" [in %s: %s @ %s]", m.curFn, m.curIn, m.prog.Fset.Position(m.curIn.Pos()))
+			}
+			res.Err = fmt.Sprintf("engine panic: %v%s", r, where)
 		}
 		m.ctx.solver.Close()
 		res.WallS = time.Since(t0).Seconds()
@@ -557,8 +563,11 @@ func cmdRun(a []string) int {
 	if len(a) > 3 {
 		fmt.Sscan(a[3], &spec.Unwind)
 	}
-	if len(a) > 4 {
+	if len(a) > 4 && a[4] != "" {
 		spec.Summarize = strings.Split(a[4], ",")
+	}
+	if len(a) > 5 {
+		spec.SkipGo = strings.Split(a[5], ",")
 	}
 	l := load(ix, []string{spec.Pkg})
 	fmt.Printf("loaded in %v\n", l.dur)
